@@ -26,10 +26,13 @@
    [Call x muts als] is a call of an external (numpy/astropy/scipy) function given
    by its summary: it writes through the variables [muts] and its result may reach
    the buffers of the variables [als] and one new buffer. *)
-From Coq Require Import List Arith Bool.
+From Coq Require Import List Arith NArith Bool.
 Import ListNotations.
 
-Definition var := nat.
+(* variables are binary numbers (the translated programs have a few thousand of them and the
+   analysis compares them all the time under vm_compute); buffers stay unary, they are never
+   computed with *)
+Definition var := N.
 Definition buf := nat.
 
 Inductive expr :=
@@ -56,8 +59,9 @@ Inductive stmt :=
 Record cstate := { st : var -> list buf; ver : buf -> nat; next : buf }.
 
 Definition mem (b : nat) (l : list nat) : bool := existsb (Nat.eqb b) l.
+Definition memv (x : var) (l : list var) : bool := existsb (N.eqb x) l.
 Definition upd (s : var -> list buf) (x : var) (v : list buf) : var -> list buf :=
-  fun y => if Nat.eqb y x then v else s y.
+  fun y => if N.eqb y x then v else s y.
 Definition bump (h : buf -> nat) (bs : list buf) : buf -> nat :=
   fun b => if mem b bs then S (h b) else h b.
 Definition reach (c : cstate) (xs : list var) : list buf := flat_map (st c) xs.
@@ -114,11 +118,11 @@ Inductive exec : cstate -> stmt -> outcome -> cstate -> Prop :=
 (* ---------------- the analysis ---------------- *)
 (* abstract state = the set of variables that MAY reach a protected buffer *)
 Definition astate := list var.
-Definition aget (a : astate) (x : var) : bool := mem x a.
+Definition aget (a : astate) (x : var) : bool := memv x a.
 Definition aset (a : astate) (x : var) (t : bool) : astate :=
-  if t then x :: a else filter (fun y => negb (Nat.eqb y x)) a.
-Definition ajoin (a b : astate) : astate := a ++ filter (fun x => negb (mem x a)) b.
-Definition aleb (a b : astate) : bool := forallb (fun x => mem x b) a.
+  if t then x :: a else filter (fun y => negb (N.eqb y x)) a.
+Definition ajoin (a b : astate) : astate := a ++ filter (fun x => negb (memv x a)) b.
+Definition aleb (a b : astate) : bool := forallb (fun x => memv x b) a.
 
 Definition aeval (a : astate) (e : expr) : bool :=
   match e with
@@ -133,8 +137,11 @@ Definition aeval (a : astate) (e : expr) : bool :=
    loop; a_ret: may a returned value reach a protected buffer *)
 Record ares := { a_norm : astate; a_acc : astate; a_brk : astate; a_cnt : astate; a_ret : bool }.
 
-Definition set_norm (A : ares) (a : astate) : ares :=
-  {| a_norm := a; a_acc := ajoin (a_acc A) a; a_brk := a_brk A; a_cnt := a_cnt A; a_ret := a_ret A |}.
+(* strong update of x on the normal path; the accumulator only needs x added when x becomes
+   tainted, because a_norm is always included in a_acc (invariant wfA of the proofs) *)
+Definition set_norm (A : ares) (x : var) (t : bool) : ares :=
+  {| a_norm := aset (a_norm A) x t; a_acc := if t then x :: a_acc A else a_acc A;
+     a_brk := a_brk A; a_cnt := a_cnt A; a_ret := a_ret A |}.
 
 Section Analyze.
 Variable fuel : nat.
@@ -162,11 +169,11 @@ Fixpoint analyze (s : stmt) (A : ares) {struct s} : option ares :=
   match s with
   | Skip => Some A
   | Seq s1 s2 => match analyze s1 A with Some A1 => analyze s2 A1 | None => None end
-  | Assign x e => Some (set_norm A (aset (a_norm A) x (aeval (a_norm A) e)))
+  | Assign x e => Some (set_norm A x (aeval (a_norm A) e))
   | InPlace x => if aget (a_norm A) x then None else Some A
   | Call x muts als =>
       if existsb (aget (a_norm A)) muts then None
-      else Some (set_norm A (aset (a_norm A) x (existsb (aget (a_norm A)) als)))
+      else Some (set_norm A x (existsb (aget (a_norm A)) als))
   | If s1 s2 =>
       match analyze s1 A with
       | None => None
